@@ -222,6 +222,8 @@ func limiterSerial(p *Prog, r *Report, rule string) {
 }
 
 func runC03(p *Prog, r *Report) {
+	// R9: rejection is signalled by a positive delay only: the advertised delay must be the exact positive product (shared with C13.R4)
+	r.Borrow(p, runC13, map[string]string{"C13.R4": "C03.R9"}, nil)
 	c03Limiter(p, r)
 	limiterSerial(p, r, "C03.R6")
 	b := resolveBucket(p, r, "C03.R3")
@@ -349,6 +351,19 @@ func runC03(p *Prog, r *Report) {
 		}
 		r.Check(okCap, "C03.R4", what+": credited tokens are capped at burst afterwards", p.InstrPos(credit), "every path from the credit to a return passes `if availableTokens > burst { availableTokens = burst }`", "after crediting, availableTokens is not capped at burst on every path")
 	}
+	// the checkpoint moves nowhere else: outside the refill routine lastRefresh is only initialised in a freshly allocated bucket
+	nLR := 0
+	for _, st := range p.StoresToField(b.typ, b.lastRef) {
+		nLR++
+		if st.Parent() == fn {
+			continue
+		}
+		fa, _ := st.Addr.(*ssa.FieldAddr)
+		_, fresh := fa.X.(*ssa.Alloc)
+		r.Check(fresh, "C03.R4", "ratelimit.tokenBucket.lastRefresh: written only by the refill routine and at construction; store in "+FName(st.Parent()), p.InstrPos(st),
+			"initialisation of a freshly allocated bucket", "lastRefresh of an existing bucket is moved outside the refill routine: the time accrued since the checkpoint is forfeited (or credited twice) without a matching credit of tokens")
+	}
+	r.Floor("C03.R4", nLR, 2, "stores of lastRefresh")
 	// timePerToken = period / average wherever it is stored
 	nT := 0
 	for _, st := range p.StoresToField(b.typ, b.tpt) {
@@ -440,11 +455,113 @@ func c03Limiter(p *Prog, r *Report) {
 		}
 	}
 	r.Floor("C03.R2", nNew, 1, "bucket set constructions in the consume routine")
+	c03Admission(p, r, tl, fn)
+	c03Capacity(p, r, "C03.R8", tl)
+}
+
+// c03Admission (R7): the limiter fails closed. The wrapped handler is invoked only on the nil edge
+// of the consume routine's error result (and of the source extractor's), whatever the kind of error:
+// an over-burst amount or a failing TTL map is an error of the consume routine like an exhausted bucket.
+func c03Admission(p *Prog, r *Report, tl *types.Named, consume *ssa.Function) {
+	serve := p.MethodOf(tl, "ServeHTTP")
+	if serve == nil || serve.Blocks == nil {
+		r.Anchor("C03.R7", "ratelimit.(*TokenLimiter).ServeHTTP", "not found")
+		return
+	}
+	r.Fn(FName(serve))
+	var nexts []ssa.Instruction
+	var gates []*ssa.Call
+	for _, c := range Calls(serve) {
+		if cc, ok := isHandlerServe(c); ok && isHTTPHandlerType(cc.Value.Type()) {
+			nexts = append(nexts, c)
+		}
+		call, ok := c.(*ssa.Call)
+		if !ok {
+			continue
+		}
+		if call.Common().StaticCallee() == consume {
+			gates = append(gates, call)
+		} else if cc := call.Common(); cc.IsInvoke() && cc.Method.Name() == "Extract" && errorResultIndex(cc.Signature()) >= 0 {
+			gates = append(gates, call)
+		}
+	}
+	if len(nexts) == 0 || len(gates) < 2 {
+		r.Anchor("C03.R7", "ratelimit.(*TokenLimiter).ServeHTTP: source extraction, consume routine and wrapped handler", fmt.Sprintf("found %d gate calls, %d wrapped-handler calls", len(gates), len(nexts)))
+		return
+	}
+	for _, g := range gates {
+		idx := errorResultIndex(g.Common().Signature())
+		nts := NilTests(serve, resultValue(g, idx))
+		name := "the consume routine"
+		if g.Common().IsInvoke() {
+			name = "the source extractor"
+		}
+		for _, nx := range nexts {
+			ok := false
+			for _, t := range nts {
+				if OnlyViaEdge(serve, nx, t.Nil) {
+					ok = true
+				}
+			}
+			r.Paths++
+			r.Check(ok, "C03.R7", "ratelimit.(*TokenLimiter).ServeHTTP: wrapped handler only when "+name+" returned no error", p.InstrPos(nx),
+				"the wrapped handler is reachable only on the err == nil edge", "the wrapped handler is reachable although "+name+" returned an error (the limiter fails open: e.g. an amount larger than the burst, which is never charged, is admitted)")
+		}
+	}
+}
+
+// c03Capacity (R8): the TTL map that remembers the sources is created with the configured capacity,
+// i.e. the capacity field is read for NewTTLMap after every option has run (an option that runs later
+// cannot size the map any more: sources within the configured capacity would be evicted and return
+// with a fresh full burst).
+func c03Capacity(p *Prog, r *Report, rule string, tl *types.Named) {
+	n := 0
+	for _, fn := range p.PkgFuncs("ratelimit") {
+		for _, c := range Calls(fn) {
+			call, ok := c.(*ssa.Call)
+			if !ok || !ccIs(call.Common(), pkgColl, "NewTTLMap") {
+				continue
+			}
+			n++
+			what := "ratelimit." + fn.Name() + ": TTL map sized with the configured capacity"
+			arg := stripConv(call.Common().Args[0])
+			ld, isLoad := arg.(*ssa.UnOp)
+			if !isLoad || !isFieldAddr(ld.X, tl, "capacity") {
+				r.Fail(rule, what, p.InstrPos(call), "the capacity handed to NewTTLMap is "+truncate(BuildExpr(p, arg, nil).String(), 100)+", not the limiter's capacity field")
+				continue
+			}
+			// no option (a call of a func(*TokenLimiter) error value) may run after the read
+			var late ssa.Instruction
+			isOpt := NewEvents(p, func(in ssa.Instruction) bool {
+				cc := CallCommonOf(in)
+				if cc == nil || cc.IsInvoke() || cc.StaticCallee() != nil {
+					return false
+				}
+				sig, ok := cc.Value.Type().Underlying().(*types.Signature)
+				return ok && sig.Params().Len() == 1 && derefNamed(sig.Params().At(0).Type()) == tl
+			})
+			for in := range Reach(fn, ld, nil, nil) {
+				if isOpt.MayInstr(in) {
+					late = in
+				}
+			}
+			r.Paths++
+			r.Check(late == nil, rule, what, p.InstrPos(call), "capacity read after all options were applied", "an option can still run after the capacity was read for NewTTLMap"+func() string {
+				if late != nil {
+					return " (" + p.InstrPos(late) + ")"
+				}
+				return ""
+			}()+": Capacity(n) has no effect on the map")
+		}
+	}
+	r.Floor(rule, n, 1, "NewTTLMap calls in package ratelimit")
 }
 
 // ---------------- C13 ----------------
 
 func runC13(p *Prog, r *Report) {
+	// R7: the refill credits exactly the elapsed time, so an idle source regains its burst and the advertised wait suffices (shared with C03.R4)
+	r.Borrow(p, runC03, map[string]string{"C03.R4": "C13.R7"}, nil)
 	b := resolveBucket(p, r, "C13.R1")
 	if b == nil {
 		return
